@@ -419,7 +419,8 @@ def argreduce_preprocess(array, axis):
     import numpy as np
 
     # TODO: arg reductions along multiple axes seems weird.
-    assert len(axis) == 1
+    if len(axis) != 1:
+        raise NotImplementedError("arg-reductions of dask arrays are only supported along a single axis.")
     axis = axis[0]
 
     idx = dask.array.arange(array.shape[axis], chunks=array.chunks[axis], dtype=np.intp)
